@@ -234,4 +234,204 @@ theorem depTyped_inv (sp : Spec) (v : VT) (deps : List Dep) (e : Str) (hint : sp
   exact ⟨depStageNeg_inv sp s4 (depStageMod_inv sp s3 s4 (depStageProg_inv sp s2 s3
     (depStagePas_inv sp _ s2 e1 e2 e3 h2) h3) h4), rfl⟩
 
+/-! ### realization of the root -/
+
+theorem depToks_noV (refl : Bool) (d : Dep) (ts : List Tok) (hd : d.t.isV = false) (h : d.toks refl = .ok ts) :
+    ∀ t ∈ ts, t.isV = false := by
+  unfold Dep.toks at h
+  cases hdt : d.t with
+  | v x => simp [hdt, DTerm.isV] at hd
+  | np a => simp only [hdt, Except.ok.injEq] at h; subst h; intro t ht; simp at ht; rcases ht with rfl | rfl <;> rfl
+  | pp prep inner =>
+    simp only [hdt, Except.ok.injEq] at h; subst h
+    intro t ht
+    simp only [List.mem_cons] at ht
+    rcases ht with rfl | ht
+    · rfl
+    · cases inner <;> simp [Inner.toks, proTok] at ht
+      · rcases ht with rfl | rfl <;> rfl
+      · subst ht; rfl
+  | pro p => simp only [hdt, Except.ok.injEq] at h; subst h; intro t ht; simp [proTok] at ht; subst ht; rfl
+  | q l => simp only [hdt, Except.ok.injEq] at h; subst h; intro t ht; simp at ht; subst ht; rfl
+  | pt l => simp only [hdt, Except.ok.injEq] at h; subst h; intro t ht; simp at ht; subst ht; rfl
+
+theorem tokTailOk_of_noV (t : Tok) (h : t.isV = false) : TokTailOk t := by
+  cases t <;> simp_all [TokTailOk, Tok.isV]
+
+theorem depToks_clean (refl : Bool) (d : Dep) (ts : List Tok) (hd : DepOk d) (h : d.toks refl = .ok ts) :
+    (∀ t ∈ ts, TokTailOk t) ∧ (∀ y ∈ vts ts, NonFin y) := by
+  cases hdt : d.t with
+  | v x =>
+    unfold DepOk at hd
+    simp only [hdt] at hd
+    unfold Dep.toks at h
+    simp only [hdt] at h
+    obtain ⟨r, hr, h⟩ := bindE_ok _ _ _ h
+    simp only [pure, Except.pure, Except.ok.injEq] at h
+    subst h
+    exact ⟨(conj_clean x refl none r hd.2.1 hd.2.2.1 hr).1,
+      (conj_vts x refl none r (by intro q hq; cases hq) hr).2 hd.2.2.2⟩
+  | _ =>
+    have hnv : d.t.isV = false := by rw [hdt]; rfl
+    have := depToks_noV refl d ts hnv h
+    exact ⟨fun t ht => tokTailOk_of_noV t (this t ht), by rw [vts_nil_of_noV ts this]; simp⟩
+
+theorem mapM_all {α β} (f : α → Except Crash (List β)) (P : β → Prop) (l : List α) (r : List (List β))
+    (hf : ∀ a ∈ l, ∀ ts, f a = .ok ts → ∀ t ∈ ts, P t) (h : l.mapM f = .ok r) : ∀ t ∈ r.flatten, P t := by
+  induction l generalizing r with
+  | nil => simp [List.mapM_nil, pure, Except.pure] at h; subst h; simp
+  | cons a rest ih =>
+    rw [List.mapM_cons] at h
+    obtain ⟨ts, hts, h⟩ := bindE_ok _ _ _ h
+    obtain ⟨rr, hrr, h⟩ := bindE_ok _ _ _ h
+    simp only [pure, Except.pure, Except.ok.injEq] at h
+    subst h
+    intro t ht
+    simp only [List.flatten_cons, List.mem_append] at ht
+    rcases ht with ht | ht
+    · exact hf a List.mem_cons_self ts hts t ht
+    · exact ih rr (fun a ha => hf a (List.mem_cons_of_mem _ ha)) hrr t ht
+
+theorem depConsumed_mem (used : Bool) (pres posts : List Dep) :
+    (∀ d ∈ (depConsumed used pres posts).1, d ∈ pres) ∧ (∀ d ∈ (depConsumed used pres posts).2, d ∈ posts) := by
+  unfold depConsumed
+  split
+  · split
+    · split
+      · exact ⟨fun d hd => List.mem_of_mem_eraseIdx hd, fun d hd => hd⟩
+      · exact ⟨fun d hd => hd, fun d hd => List.mem_of_mem_eraseIdx hd⟩
+    · exact ⟨fun d hd => hd, fun d hd => hd⟩
+  · exact ⟨fun d hd => hd, fun d hd => hd⟩
+
+theorem isPre_nonV (d : Dep) (hd : DepOk d) (hp : d.isPre = true) : d.t.isV = false := by
+  cases hdt : d.t with
+  | v x =>
+    unfold DepOk at hd
+    simp only [hdt] at hd
+    simp [Dep.isPre, hd.1] at hp
+  | _ => rfl
+
+theorem vts_of_all (l : List Tok) (h : ∀ t ∈ l, ∀ y, t.vt? = some y → NonFin y) : ∀ y ∈ vts l, NonFin y := by
+  intro y hy
+  obtain ⟨t, ht, hty⟩ := List.mem_filterMap.mp hy
+  exact h t ht y hty
+
+theorem all_of_vts (l : List Tok) (h : ∀ y ∈ vts l, NonFin y) : ∀ t ∈ l, ∀ y, t.vt? = some y → NonFin y :=
+  fun t ht y hty => h y (List.mem_filterMap.mpr ⟨t, ht, hty⟩)
+
+/-- the pieces `depReal` puts together: verb-free tokens of the `pre` dependents, the conjugated root verb, clean
+    tokens of the others -/
+theorem depReal_parts (refl : Bool) (v : VT) (deps : List Dep) (toks : List Tok) (hd : DI deps)
+    (h : depReal refl v deps = .ok toks) :
+    ∃ rv preT postT, conjugate v refl (depNextPro (deps.filter Dep.isPre ++ deps.filter (fun d => !d.isPre))) = .ok rv ∧
+      (∀ t ∈ preT, t.isV = false) ∧ (∀ t ∈ postT, TokTailOk t) ∧ (∀ y ∈ vts postT, NonFin y) ∧
+      (if rootIsVToks rv.1 then placePronouns refl (removeEmpty (preT ++ rv.1 ++ postT)) = .ok toks
+       else toks = removeEmpty (preT ++ rv.1 ++ postT)) := by
+  unfold depReal at h
+  obtain ⟨rv, hrv, h⟩ := bindE_ok _ _ _ h
+  obtain ⟨preToks, hpre, h⟩ := bindE_ok _ _ _ h
+  obtain ⟨postToks, hpost, h⟩ := bindE_ok _ _ _ h
+  obtain ⟨m1, m2⟩ := depConsumed_mem rv.2 (deps.filter Dep.isPre) (deps.filter (fun d => !d.isPre))
+  refine ⟨rv, preToks.flatten, postToks.flatten, hrv, ?_, ?_, ?_, ?_⟩
+  · apply mapM_all _ (fun t => t.isV = false) _ _ _ hpre
+    intro d hd' ts hts
+    have hdm := List.mem_filter.mp (m1 d hd')
+    exact depToks_noV refl d ts (isPre_nonV d (hd d hdm.1) hdm.2) hts
+  · apply mapM_all _ TokTailOk _ _ _ hpost
+    intro d hd' ts hts
+    exact (depToks_clean _ d ts (hd d (List.mem_filter.mp (m2 d hd')).1) hts).1
+  · apply vts_of_all
+    apply mapM_all _ (fun t => ∀ y, t.vt? = some y → NonFin y) _ _ _ hpost
+    intro d hd' ts hts
+    exact all_of_vts ts (depToks_clean _ d ts (hd d (List.mem_filter.mp (m2 d hd')).1) hts).2
+  · split
+    · rename_i hroot
+      simpa [hroot] using h
+    · rename_i hroot
+      simp only [hroot, Bool.false_eq_true, if_false, pure, Except.pure, Except.ok.injEq] at h
+      exact h.symm
+
+theorem depNextPro_noV (l : List Dep) (q : Tok) (h : depNextPro l = some q) : q.isV = false := by
+  unfold depNextPro at h
+  split at h
+  · split at h
+    · split at h
+      · cases h; rfl
+      · cases h
+    · cases h
+  · cases h
+
+/-- **one finite verb, dependency notation**: among the verb tokens of the realized clause only the first can be a
+    finite form -/
+theorem depReal_one_finite (refl : Bool) (v : VT) (deps : List Dep) (toks : List Tok) (hd : DI deps)
+    (h : depReal refl v deps = .ok toks) : ∀ t ∈ (vts toks).tail, NonFin t := by
+  obtain ⟨rv, preT, postT, hrv, hpre, _, hpost, hfin⟩ := depReal_parts refl v deps toks hd h
+  have hc := (conj_vts v refl _ rv (fun q hq => depNextPro_noV _ q hq) hrv).1
+  have h1 : ∀ t ∈ (vts (preT ++ rv.1 ++ postT)).tail, NonFin t := by
+    intro t ht
+    rw [vts_append, vts_append, vts_nil_of_noV preT hpre, List.nil_append] at ht
+    rcases mem_tail_append _ _ t ht with ht | ht
+    · exact hc t ht
+    · exact hpost t ht
+  have h2 := tail_sublist_nonfin _ _ (vts_sublist _ _ (removeEmpty_sublist _)) h1
+  split at hfin
+  · rw [vts_place refl _ toks hfin]; exact h2
+  · rw [hfin]; exact h2
+
+/-! ### the chain of verbs -/
+
+def Dep.vc? (d : Dep) : Option (Str × Tense) :=
+  match d.t with
+  | .v y => some (y.lex.lemma, y.t)
+  | _ => none
+
+/-- the verbs among the dependents, in order -/
+def depChain (deps : List Dep) : List (Str × Tense) := deps.filterMap Dep.vc?
+
+/-- the root verb first, then the verbs among its dependents -/
+def chainOf (s : VT × List Dep) : List (Str × Tense) := (s.1.lex.lemma, s.1.t) :: depChain s.2
+
+theorem vc_nonV (d : Dep) (h : d.t.isV = false) : d.vc? = none := by
+  unfold Dep.vc?; cases hd : d.t <;> simp_all [DTerm.isV]
+
+theorem depChain_nv (l : List Dep) (h : NV l) : depChain l = [] := by
+  unfold depChain
+  rw [List.filterMap_eq_nil_iff]
+  exact fun d hd => vc_nonV d (h d hd)
+
+theorem depChain_append (a b : List Dep) : depChain (a ++ b) = depChain a ++ depChain b := by
+  simp [depChain, List.filterMap_append]
+
+theorem depChain_pyInsert_nv (k : Nat) (d : Dep) (l : List Dep) (h : NV l) :
+    depChain (pyInsert k d l) = d.vc?.toList := by
+  rw [pyInsert_split, depChain_append]
+  have h1 : depChain (l.take k) = [] := depChain_nv _ (fun e he => h e (List.mem_of_mem_take he))
+  have h2 : depChain (l.drop k) = [] := depChain_nv _ (fun e he => h e (List.mem_of_mem_drop he))
+  rw [h1, List.nil_append]
+  show depChain ([d] ++ _) = _
+  rw [depChain_append, h2, List.append_nil]
+  cases hv : d.vc? <;> simp [depChain, hv]
+
+theorem passivateDep_chain (v v' : VT) (deps deps' : List Dep) (hd : NV deps)
+    (h : passivateDep v deps = .ok (v', deps')) :
+    chainOf (v', deps') = [(if v.lex.lemma = etre then avoir else etre, v.t), (v.lex.lemma, .pp)] := by
+  unfold passivateDep at h
+  obtain ⟨el, hel, h⟩ := bindE_ok _ _ _ h
+  obtain ⟨al, hal, h⟩ := bindE_ok _ _ _ h
+  obtain ⟨⟨obj, deps1⟩, h1, h⟩ := bindE_ok _ _ _ h
+  have hd1 := passivateDepObj_nv deps deps1 obj hd h1
+  have he := auxLex_lemma _ _ hel
+  have ha := auxLex_lemma _ _ hal
+  simp only [pure, Except.pure, Except.ok.injEq, Prod.mk.injEq] at h
+  obtain ⟨rfl, rfl⟩ := h
+  unfold chainOf
+  rw [depChain_pyInsert_nv _ _ _ hd1]
+  cases obj with
+  | none =>
+    simp only [VT.setLemma, Dep.vc?, mkV, Option.toList]
+    split <;> simp_all
+  | some o =>
+    simp only [VT.setLemma, Dep.vc?, mkV, Option.toList]
+    split <;> simp_all
+
 end Pyrealb.ClauseFr
